@@ -15,6 +15,13 @@ def build_history(ctx, sess, n_parse, n_ops, kinds=('and', 'or', 'not'), battery
         reg, r = sess.parse(t)
         if reg is not None:
             regs.append(reg)
+    # comparisons over the same few boolean variables (extras, `in`, substring tests), both polarities: operands of forced and / or steps below
+    family = []
+    for t in markers.boolean_family(ctx.rng, 0):
+        reg, r = sess.parse(t)
+        if reg is not None:
+            regs.append(reg)
+            family.append(reg)
     steps = []
     if pre:
         n0 = len(regs)
@@ -66,6 +73,18 @@ def build_history(ctx, sess, n_parse, n_ops, kinds=('and', 'or', 'not'), battery
                 if reg is None:
                     ctx.failure('%s on registers panicked or failed: %s' % (k, dump(r)),
                                 {'op': k, 'operands': [markers.describe(sess, x) for x in (a, b)], 'result': dump(r)})
+                    continue
+                regs.append(reg)
+                steps.append((k, (a, b), reg))
+    for i, x in enumerate(family):
+        for y in family[i + 1:]:
+            for k in [k for k in ('and', 'or') if k in kinds]:
+                if ctx.rng.random() < .5:
+                    continue
+                a, b = (x, y) if ctx.rng.random() < .5 else (y, x)
+                reg, r = sess.op(k, a, b)
+                ctx.count('op:family-' + k)
+                if reg is None:
                     continue
                 regs.append(reg)
                 steps.append((k, (a, b), reg))
